@@ -7,6 +7,7 @@ import (
 	"fmt"
 	"io"
 	"os"
+	"os/exec"
 	"path/filepath"
 	"runtime"
 	"strings"
@@ -36,7 +37,8 @@ type probe struct {
 	TS     time.Time
 	Msg    string
 	Attrs  []vlib.ExpAttr
-	UTC    int // 0 unset, 1 false, 2 true
+	UTC    int  // 0 unset, 1 false, 2 true
+	ZeroPC bool // the record is handed over without a stack frame (pc 0), as a hand-built log/slog record would be
 }
 
 type histCall struct {
@@ -115,7 +117,15 @@ func genHistory(t *rapid.T, label string, nLoggers int) []histCall {
 }
 
 func TestHistoryIndependence(t *testing.T) {
-	rapid.Check(t, func(t *rapid.T) {
+	rapid.Check(t, func(t *rapid.T) { property(t, "", nil) })
+}
+
+// property is one generated case. mode "" compares four emissions of the probe inside this process.
+// In the cross-process modes the same case (same seed, same draws) is executed by two different child
+// processes: "alone" emits the probe without running the histories, "history" runs both histories
+// first; each hands the probe's bytes to sink and the parent compares the two processes' outputs.
+func property(t *rapid.T, mode string, sink func([]byte)) {
+	{
 		defer vlib.Canon()()
 		_ = slog.RegisterLevel(custColoured, "notice", slog.RegWithColor(color.FgWhite, color.BgUnderline), slog.RegWithTreatedAsLevel(slog.InfoLevel))
 		_ = slog.RegisterLevel(custPlain, "plainlvl")
@@ -129,6 +139,7 @@ func TestHistoryIndependence(t *testing.T) {
 		p.Msg = genMsg().Draw(t, "msg")
 		p.UTC = rapid.IntRange(0, 2).Draw(t, "utc")
 		p.Attrs = genAttrs(t)
+		p.ZeroPC = rapid.IntRange(0, 4).Draw(t, "zeroPC") == 0
 		if p.Sev == slog.AlwaysLevel && strings.Trim(p.Msg, " \t\r\n") == "" {
 			p.Msg += "x"
 		}
@@ -195,7 +206,11 @@ func TestHistoryIndependence(t *testing.T) {
 
 		doProbe := func() []byte {
 			before := log.Len()
-			plg.(slog.LogSlogAware).WriteThru(context.Background(), p.Sev, p.TS, fixedPC, p.Msg, vlib.AttrsOf(p.Attrs))
+			pc := fixedPC
+			if p.ZeroPC {
+				pc = 0
+			}
+			plg.(slog.LogSlogAware).WriteThru(context.Background(), p.Sev, p.TS, pc, p.Msg, vlib.AttrsOf(p.Attrs))
 			evs := log.Snapshot()[before:]
 			if len(evs) != 1 {
 				t.Fatalf("C09 harness expectation: one probe record, got %d", len(evs))
@@ -240,6 +255,16 @@ func TestHistoryIndependence(t *testing.T) {
 		h2 := genHistory(t, "h2", len(hl))
 		g1 := rapid.SampledFrom([]int{1, 1, 1, 3}).Draw(t, "goroutines")
 
+		switch mode {
+		case "alone":
+			sink(doProbe())
+			return
+		case "history":
+			runHist(h1, 1)
+			runHist(h2, 1)
+			sink(doProbe())
+			return
+		}
 		b0 := doProbe()
 		runHist(h1, g1)
 		hookOn = true // (only matters for a re-entrant destination) the side logging happens for emissions 2 and 4 only
@@ -312,7 +337,72 @@ func TestHistoryIndependence(t *testing.T) {
 		if key != "" && vlib.WantSample("TestHistoryIndependence/"+p.Format) {
 			vlib.Sample("TestHistoryIndependence/"+p.Format, map[string]any{"probe": desc, "history1": last(h1), "history2": last(h2), "payload": vlib.Short(string(b0))})
 		}
+	}
+}
+
+// TestCrossProcessChild is the child side of TestCrossProcess (skipped unless C09_MODE is set).
+func TestCrossProcessChild(t *testing.T) {
+	mode := os.Getenv("C09_MODE")
+	if mode == "" {
+		t.Skip("child side of TestCrossProcess")
+	}
+	f, err := os.Create(os.Getenv("C09_OUT"))
+	if err != nil {
+		t.Fatal(err)
+	}
+	defer f.Close()
+	rapid.Check(t, func(t *rapid.T) {
+		property(t, mode, func(b []byte) { fmt.Fprintf(f, "%x\n", b) })
 	})
+}
+
+// TestCrossProcess: the same generated cases are executed by two fresh child processes, one emitting every probe
+// without its histories and one after them; the probes' bytes must agree line by line. Unlike the in-process
+// comparison this also exposes state that lives as long as the process (first-use caches, interning tables).
+func TestCrossProcess(t *testing.T) {
+	self := os.Getenv("VERIF_SELF")
+	if self == "" {
+		self = os.Args[0]
+	}
+	n := 400
+	if vlib.Thorough() {
+		n = 6000
+	}
+	seed := os.Getenv("VERIF_SEED")
+	if seed == "" || seed == "0" {
+		seed = "1"
+	}
+	dir := t.TempDir()
+	run := func(mode string) []string {
+		out := filepath.Join(dir, mode+".txt")
+		cmd := exec.Command(self, "-test.run", "^TestCrossProcessChild$", "-test.count", "1", "-rapid.checks", fmt.Sprint(n), "-rapid.seed", seed, "-rapid.nofailfile")
+		cmd.Env = append(os.Environ(), "C09_MODE="+mode, "C09_OUT="+out, "VERIF_STATS=", "VERIF_CHILD=")
+		if b, err := cmd.CombinedOutput(); err != nil {
+			t.Fatalf("C09 cross-process child (%s) failed: %v\n%s", mode, err, b)
+		}
+		data, err := os.ReadFile(out)
+		if err != nil {
+			t.Fatalf("harness: %v", err)
+		}
+		return strings.Split(strings.TrimSpace(string(data)), "\n")
+	}
+	alone, hist := run("alone"), run("history")
+	if len(alone) != len(hist) || len(alone) < n {
+		t.Fatalf("harness: the two child processes produced %d and %d probe records for %d cases", len(alone), len(hist), n)
+	}
+	for i := range alone {
+		if alone[i] != hist[i] {
+			var a, h []byte
+			fmt.Sscanf(alone[i], "%x", &a)
+			fmt.Sscanf(hist[i], "%x", &h)
+			vlib.Discrep(t, "C09/cross-process", "C09 case #%d of seed %s: the probe printed by a process that ran no history differs from the one printed after the histories:\n  %q\n  %q", i, seed, a, h)
+			break
+		}
+	}
+	vlib.Case("TestCrossProcess", fmt.Sprintf("seed-%s-%d", seed, n), "cross-process")
+	vlib.Case("TestCrossProcess", fmt.Sprintf("seed-%s-lines-%d", seed, len(alone)), "cross-process")
+	vlib.Extra("cross_process_probe_pairs", len(alone))
+	vlib.Sample("TestCrossProcess", map[string]any{"seed": seed, "cases": n, "first_probe_hex_prefix": alone[0][:min(80, len(alone[0]))]})
 }
 
 var regCounter = 5000
